@@ -31,6 +31,8 @@ struct ModelGame {
     occ_look: HashMap<Vec<u8>, u32>,
     clock: u32,
     max_clock: u32,
+    /// > 0 for a few plies after a fifty-move window that had become claimable was closed by an irreversible move
+    since_claimable_window_closed: u32,
     /// half-move index (in moves) at which castling rights last changed
     last_rights_change: Option<u32>,
     nmoves: u32,
@@ -46,7 +48,7 @@ fn key(p: &RPos, ep: bool) -> Vec<u8> {
 
 impl ModelGame {
     fn new(start: &RPos) -> ModelGame {
-        let mut g = ModelGame { start: start.clone(), cur: start.clone(), log: vec![], occ_fide: HashMap::new(), occ_lib: HashMap::new(), occ_look: HashMap::new(), clock: 0, max_clock: 0, last_rights_change: None, nmoves: 0 };
+        let mut g = ModelGame { start: start.clone(), cur: start.clone(), log: vec![], occ_fide: HashMap::new(), occ_lib: HashMap::new(), occ_look: HashMap::new(), clock: 0, max_clock: 0, since_claimable_window_closed: 0, last_rights_change: None, nmoves: 0 };
         g.note_position();
         g
     }
@@ -82,7 +84,11 @@ impl ModelGame {
         let before = self.cur.castle;
         self.cur = self.cur.make(m);
         self.nmoves += 1;
+        self.since_claimable_window_closed = self.since_claimable_window_closed.saturating_sub(1);
         if irreversible {
+            if self.clock >= 100 {
+                self.since_claimable_window_closed = 4;
+            }
             self.clock = 0;
         } else {
             self.clock += 1;
@@ -267,6 +273,14 @@ fn choose_move(rng: &mut Rng, m: &ModelGame, legal: &[RMove], pol: Policy) -> RM
         }
         Policy::AvoidBreak(_) => choose_move(rng, m, legal, Policy::Avoid),
         Policy::Avoid => {
+            // a window that has become claimable but was not claimed: close it with a pawn move or a capture
+            // (the claim must be refused again afterwards)
+            if m.clock >= 101 && rng.chance(1, 5) {
+                let closers: Vec<RMove> = legal.iter().cloned().filter(|mv| (kind(m.cur.sq[mv.from as usize]) == P || m.cur.is_capture(*mv)) && m.cur.make(*mv).has_legal_move()).collect();
+                if !closers.is_empty() {
+                    return *rng.pick(&closers);
+                }
+            }
             // once the fifty-move clock is high, sometimes finish the game with a quiet move (mate or stalemate)
             if m.clock >= 99 && rng.chance(1, 4) {
                 let enders: Vec<RMove> = legal.iter().cloned().filter(|mv| kind(m.cur.sq[mv.from as usize]) != P && !m.cur.is_capture(*mv) && !m.cur.make(*mv).has_legal_move()).collect();
@@ -396,7 +410,10 @@ impl GameMon {
             let claimable_m = run.m.clock >= 100 || run.m.reps_fide() >= 3;
             let near_window = run.m.clock >= 94 && run.m.clock <= 106;
             // ---- C11 queries are made at every step near interesting moments, otherwise sampled
-            if self.c11 && (near_window || run.m.reps_fide() >= 2 || claimable_m || rng.chance(1, 12)) {
+            if run.m.since_claimable_window_closed > 0 {
+                rep.count("ev_queries_after_claimable_window_closed");
+            }
+            if self.c11 && (near_window || run.m.reps_fide() >= 2 || claimable_m || run.m.since_claimable_window_closed > 0 || rng.chance(1, 12)) {
                 self.query_claim(&mut run, rho, rep);
             }
             if roll < chatter || (rho.is_some() && roll < 60) {
